@@ -99,3 +99,18 @@ Theorem C20_determined_clause_sound :
   (forall a b, config_eqb a b = true <-> a = b) /\ (forall rs, determined_b rs = true <-> Determined rs).
 Proof. exact (conj config_eqb_eq (fun rs => conj (determined_b_sound rs) (determined_b_complete rs))). Qed.
 Print Assumptions C20_determined_clause_sound.
+
+(* renderer and configuration OBJECTS (model: `self.config = config or RenderConfig()`, configuration objects in a
+   heap, customisation through a renderer's public `config` writes into the cell it points to): for every history of
+   creating renderers (with or without a configuration), customising any of them and drawing, every drawing is the
+   drawing under the drawing renderer's OWN options - created-with, changed only by steps naming that renderer.
+   The variant with one module-level default configuration object (seeded change C20-i) is refuted in the model. *)
+Theorem C20_renderers_do_not_interfere : forall dflt t ls h,
+  hrun (fresh_default dflt) t ls {| hs_heap := []; hs_rend := [] |} h = own_draws dflt t ls [] h.
+Proof. exact renderers_do_not_interfere. Qed.
+Print Assumptions C20_renderers_do_not_interfere.
+Theorem C20_shared_default_config_refuted :
+  exists h, hrun module_default ex_tree (hv_links ex_view) {| hs_heap := [ex_cfg]; hs_rend := [] |} h
+            <> own_draws ex_cfg ex_tree (hv_links ex_view) [] h.
+Proof. exact shared_default_interferes. Qed.
+Print Assumptions C20_shared_default_config_refuted.
